@@ -329,6 +329,56 @@ def _multi(idx, default, vhost, cname, cset, ver):
             "mc": {"ev": "MC", "ver": ver[1], "certKey": ck, "ske": "SKE" in seen, "server": "%s+%s" % (default, vhost), "client": cname}}
 
 
+RESUME13 = [("chacha20-poly1305", "aes128gcm"), ("aes128gcm", "chacha20-poly1305"), ("aes128gcm", "aes128ccm"),
+            ("aes128ccm", "aes128ccm_8"), ("aes256gcm", "aes256gcm")]
+
+
+def resume13(job):
+    try:
+        return _resume13(*job)
+    except BaseException:
+        import traceback
+        return {"crash": traceback.format_exc(), "sid": str(job)}
+
+
+def _resume13(idx, first, second):
+    """TLS 1.3: a ticket obtained under suite `first` is used for a connection on which the server selects `second`"""
+    from ..endpoints import Pair, cred, settings
+    from tlslite.constants import CipherSuite, KeyUpdateMessageType
+    p = Pair("c20rs-%d" % idx)
+    ch, k = cred("rsa")
+    tk = [bytearray(b"\x21" * 32)]
+    st, co, so = p.handshake(ckw=dict(settings=settings(minVersion=(3, 4), maxVersion=(3, 4), cipherNames=[first])),
+                             skw=dict(certChain=ch, privateKey=k, settings=settings(minVersion=(3, 4), maxVersion=(3, 4), ticketKeys=tk,
+                                                                                    ticket_count=1)))
+    if not (co.ok and so.ok):
+        return {"skip": "first connection: %s / %s" % (co.describe(), so.describe()), "sid": idx}
+    p.write("s", b"x")
+    p.read("c", 5, 1)
+    p.close("c")
+    p.read("s", 10, 0)
+    sess = p.c.session
+    p.reconnect()
+    names = [second, first] if second != first else [first]
+    st, co, so = p.handshake(ckw=dict(settings=settings(minVersion=(3, 4), maxVersion=(3, 4), cipherNames=names), session=sess),
+                             skw=dict(certChain=ch, privateKey=k, settings=settings(minVersion=(3, 4), maxVersion=(3, 4), ticketKeys=tk,
+                                                                                    ticket_count=1, cipherNames=[second])))
+    if not (co.ok and so.ok):
+        return {"skip": "second connection: %s / %s" % (co.describe(), so.describe()), "sid": idx}
+    name = CipherSuite.ietfNames[p.s.session.cipherSuite]
+    data_ok = True
+    for who, peer in (("c", "s"), ("s", "c")):
+        conn = p.c if who == "c" else p.s
+        p.op(who, conn.send_keyupdate_request(KeyUpdateMessageType.update_requested))
+        p.write(who, b"after-ku-" + who.encode())
+        o = p.read(peer, None, 10)
+        data_ok = data_ok and o.ok and bytes(o.value or b"") == b"after-ku-" + who.encode()
+    return {"sid": idx, "name": name, "tokens": name.split("_"), "ver": [3, 4],
+            "rs": {"ev": "RS", "first": first, "second": second, "resumed": bool(p.c.resumed),
+                   "sessCipherName": str(p.c.session.getCipherName()), "connCipherName": str(p.c.getCipherName()),
+                   "dataOk": bool(data_ok)}}
+
+
 def run(tier):
     from .. import suites
     rep = evidence.Report("C20", tier)
@@ -387,12 +437,33 @@ def run(tier):
         traces.append([{"ev": "CFG", "tokens": o["tokens"], "name": o["name"]}, o["mc"]])
         metas.append(o)
     rep.notes["multi_credential_cases"] = nmc
+    # ---- TLS 1.3 resumption across suites of one hash
+    with Pool(8) as pool:
+        routs = pool.map(resume13, [(i, a_, b_) for i, (a_, b_) in enumerate(RESUME13)])
+    for o in routs:
+        if "crash" in o:
+            rep.machinery_errors.append("resumption case crashed: %s" % o["crash"][-500:])
+            continue
+        if "skip" in o:
+            rep.notes.setdefault("resume13_skipped", []).append(o["skip"])
+            continue
+        traces.append([{"ev": "CFG", "tokens": o["tokens"], "name": o["name"]}, o["rs"]])
+        metas.append(o)
     r, rejected = tlc.validate_traces("trace/SuitesTrace.tla", "cfg/Suites_trace.cfg", traces, rep.outdir,
                                       batch_name="suites", timeout=900)
     rep.add_tlc(r, "SuitesTrace (%d observations)" % len(traces))
     rep.traces = len(traces)
     neg = 0
     for i, (t, o) in enumerate(zip(traces, metas)):
+        if "rs" in o:
+            rs = o["rs"]
+            rep.case(("rs", rs["first"], rs["second"]), rs["resumed"])
+            if i in rejected:
+                rep.violation({"suite": o["name"], "ver": "3.4",
+                               "why": "connection resumed from a %s ticket: session reports %s, connection %s, resumed=%s, data after KeyUpdate ok=%s" % (
+                                   rs["first"], rs["sessCipherName"], rs["connCipherName"], rs["resumed"], rs["dataOk"]),
+                               "observed": "-"}, {"rs": rs, "tokens": o["tokens"]})
+            continue
         if "mc" in o:
             mc = o["mc"]
             rep.case(("mc", mc["server"], mc["client"], tuple(o["ver"])), True)
